@@ -838,6 +838,13 @@ def reach_with_flags(cfg, start_ids, avoid=(), exc=False, env=None):
                 if tv is not None:
                     envd[a.targets[0].id] = tv
                     envd[f'{a.targets[0].id} is None'] = isinstance(a.value, ast.Constant) and a.value.value is None
+                elif isinstance(a.value, (ast.UnaryOp, ast.BoolOp, ast.Compare, ast.Name)):
+                    # a flag computed from flags: `wanted = not repeated`
+                    known_ = dict(env)
+                    tv = eval_under(a.value, known_, None)
+                    if isinstance(tv, bool) and not isinstance(a.value, ast.Name):
+                        envd[a.targets[0].id] = tv
+                        envd[f'{a.targets[0].id} is None'] = False
         elif isinstance(a, (ast.AugAssign, ast.For, ast.AsyncFor, ast.With)):
             for x in ast.walk(a.target if hasattr(a, 'target') else a):
                 if isinstance(x, ast.Name) and isinstance(x.ctx, ast.Store):
